@@ -178,32 +178,43 @@ def run(prog, run):
     if head is None:
         run.violation(r3, 'handleStanza#push-apply#loop', hs.loc(), 'the loop that applies the pushed items was not found')
     else:
-        apply_blocks = {hs.pos(i)[0] for i, _ in hs_writes if hs.pos(i)}
+        # stores: insert / operator[] on the map, or an assignment through an iterator obtained from the map (*it = item, it.value() = item)
+        store_blocks = {hs.pos(i)[0] for i, h in hs_writes if hs.pos(i) and not h.startswith(('remove', 'erase', 'take', 'clear'))}
+        for i, n in list(hs.all_nodes('assign')) + [(i, n) for i, n in hs.calls() if n.get('op') == '=' and len(n.get('opargs', [])) == 2]:
+            lhs = hs.nodes[hs.skip(n['l'] if n['k'] == 'assign' else n['opargs'][0])]
+            it = None
+            if lhs['k'] == 'call' and lhs.get('op') == '*' and lhs.get('opargs'):
+                it = hs.nodes[hs.skip(lhs['opargs'][0])]
+            elif lhs['k'] == 'call' and hs.cname(lhs).split('::')[-1] in ('value', 'operator*') and lhs.get('obj') is not None:
+                it = hs.nodes[hs.skip(lhs['obj'])]
+            elif lhs['k'] == 'un' and lhs.get('op') == '*':
+                it = hs.nodes[hs.skip(lhs['e'])]
+            if it is not None and it['k'] == 'var' and it.get('vk') == 'local':
+                d0 = hs.single_def(it['decl'])
+                dn = hs.nodes[hs.skip(d0)] if d0 is not None else {}
+                if dn.get('k') == 'call' and _obj_is_entries(hs, dn) and hs.pos(i):
+                    store_blocks.add(hs.pos(i)[0])
         entry = head['succs'][0]
         dom = hs.dom()
         body = {x for x in hs.blocks if ('b', entry) in dom.get(('b', x), set())}
-        seen, stack, witness = set(), [(entry, [entry])], None
-        while stack and witness is None:
-            x, path = stack.pop()
-            if x in seen or x in apply_blocks:
-                continue
-            seen.add(x)
-            for sx in hs.blocks[x]['succs']:
-                if sx is None:
-                    continue
-                if sx == head['id']:
-                    witness = path
-                    break
-                if sx in body:
-                    stack.append((sx, path + [sx]))
+        witness = None
+        for t_ in sub_types:
+            if t_ == 'Remove':
+                continue          # a removal of a contact that is not cached has nothing to do
+            ev = cfgx.Evaluator(hs, {'QXmppRosterIq::Item::subscriptionType': ('enum', 'QXmppRosterIq::Item::' + t_)})
+            witness = cfgx.path_avoiding(hs, entry, head['id'], store_blocks, lambda f, c, st, ev=ev: ev.ev(c, st), within=body)
+            if entry == head['id']:
+                witness = None
+            if witness is not None:
+                break
         if witness is None:
-            run.ok(r3, hs.loc(head['term']['range']), 'every iteration of the items loop removes or stores the pushed item')
+            run.ok(r3, hs.loc(head['term']['range']), 'every iteration of the items loop stores the pushed item unless it is a removal')
         else:
             last = hs.blocks[witness[-1]]
             site = last['elems'][-1] if last['elems'] else head['term']['range']
             run.violation(r3, 'handleStanza#push-apply#skipped', hs.loc(site),
-                          'there is a path through the body of the items loop on which the pushed item is neither removed from nor stored in the cache (a push that is judged '
-                          '"unchanged" or otherwise skipped): the view is no longer the last full roster plus every push')
+                          'there is a path through the body of the items loop on which a pushed item (subscription %s) is not stored in the cache (a push that is judged '
+                          '"unchanged" or otherwise skipped): the view is no longer the last full roster plus every push' % t_)
 
     # ---- R4 session boundary
     r4 = run.rule('C12.R4', 'a session that is not a resumption starts from an empty cache; clear() empties both maps and the flag; '
@@ -316,6 +327,14 @@ def run(prog, run):
         else:
             run.violation(r5, '_q_presenceReceived#%s#%s' % (case, h.split(' ')[-1]), f.loc(i),
                           'presence table written with %s under case %s' % (h, case))
+
+
+def _obj_is_entries(f, call):
+    o = call.get('obj')
+    if o is None:
+        return False
+    m = f.nodes[f.skip(o)]
+    return m['k'] == 'mem' and m.get('f') == ENTRIES
 
 
 def _continuation_scope(prog, conn):
